@@ -28,8 +28,10 @@ macro_rules! prim_int {
             const NAME: &'static str = stringify!($t);
             const FLOAT: bool = false;
             fn alphabet() -> Vec<$t> {
-                let cands: [i128; 22] = [
+                let cands: [i128; 28] = [
                     0, 1, -1, 2, 3, 127, 128, 255, 256, 32767, 32768, 65535, 65536, 1 << 31, (1 << 31) - 1, 1 << 32, 1 << 63, (1 << 63) - 1,
+                    // not exactly representable in f32 / f64, and double-rounding witnesses (through f64 to f32)
+                    (1 << 24) + 1, (1 << 53) + 1, (1 << 60) + (1 << 36) + 1, -((1 << 60) + (1 << 36) + 1), (1 << 60) + 3 * (1 << 36) - 1, -((1 << 53) + 1),
                     <$t>::MIN as i128, <$t>::MIN as i128 + 1, <$t>::MAX as i128 - 1, <$t>::MAX as i128,
                 ];
                 let mut v: Vec<$t> = cands.iter().filter_map(|c| <$t>::try_from(*c).ok()).collect();
